@@ -168,17 +168,25 @@ CHECKS["C19"] = dict(
     design="§4 C19", note=NOTE_NTT)
 
 CHECKS["C18"] = dict(
-    text=("PARTIAL BY NATURE. Machine-checked (Props/C18.lean): (1) allocation discipline of NTT_Goldilocks — for EVERY constructor "
-          "argument and EVERY history of NTT/INTT/extendPol calls (any shapes, with/without caller buffer, any block count) the sequence "
-          "of malloc/free/new[]/delete[] calls of constructor + calls + destructor releases each block exactly once with the deallocator "
-          "of its family and releases nothing else (hand model Model/NttAlloc.lean; the pinned tree's delete-vs-delete[] mismatch D10 is "
-          "a non-clean trace); (2) scratch extents of NTT(): a block of ceil(ncols/nblock) columns always fits the documented size*ncols "
-          "buffer and the blocks tile the columns; (3) frame conditions re-exported from C17/C08. Tie of (1): the harness records the "
-          "library's REAL allocator calls (linker-wrapped malloc/free, replaced operator new[]/delete[]/delete) over the life of an object "
-          "and the recorded trace is compared word for word with the model's, and re-checked for cleanliness independently. NOT proved, "
-          "only observed: absence of out-of-extent accesses / UB on the shape grids of C03-C05, C07-C09, C17, C19 re-run on exact-size "
-          "buffers with redzones + PROT_NONE guard pages (O1) and under AddressSanitizer+UBSan with exact heap blocks."),
-    technique="Lean 4 proof by invariant over call histories of a hand-written allocation model + allocator-trace correspondence; sanitizer/guard-page campaigns as observation only",
+    text=("PARTIAL BY NATURE, but with theorems about the model REGENERATED from the source. Machine-checked (Props/C18.lean, 19 theorems): "
+          "(A) on the generated HEAP model of ntt_goldilocks.cpp/.hpp (Gen/NttGen.lean, translated on every run; pointers = block/offset, "
+          "malloc/new[]/VLA = Heap.alloc, free/delete[]/scope end = Heap.free): ALLOCATION BALANCE — NTT, INTT, NTT_iters, reversePermutation "
+          "return a heap with exactly the same live blocks and extents for every argument value, nblock, buffer or not; the constructor "
+          "allocates exactly the two tables it stores, extendPol changes only the r/r_ cache blocks (replaced ones released), the destructor "
+          "releases exactly the owned blocks; for every history constructor -> calls -> destructor the live blocks at the end are those at the "
+          "start (C18_generated_alloc_balance). IN-BOUNDS ACCESSES — a command derives from each generated definition the predicate 'every "
+          "Heap.get/set is inside its block, every memcpy has both ranges inside their blocks and disjoint, every memset range is inside, every "
+          "free is NULL or the start of a live block', along all paths, loop iterations and callees (a construct without a rule is an error, so "
+          "no access is dropped); proved for reversePermutation (4 branches), the butterfly batch, NTT_iters (2 <= n <= 2^30, any nphase), NTT "
+          "and INTT for EVERY nblock with or without caller buffer under the documented buffer sizes (dst, buffer: size*ncols words), the "
+          "destructor, and constructor+NTT with no hypothesis on the object; NOT discharged: the constructor's table loops, computeR, extendPol, "
+          "size 1; (B) hand model of the malloc/free/new[]/delete[] TRACE (Model/NttAlloc.lean): clean for every call history, incl. the "
+          "deallocator family (the pinned tree's delete-vs-delete[] D10 is a non-clean trace), tied to the code by recording the library's REAL "
+          "allocator calls (wrapped malloc/free, replaced operator new[]/delete[]/delete) and comparing word for word; (C) scratch extents of "
+          "NTT() and frame conditions re-exported from C17/C08. NOT proved, only observed, for the rest of the library: absence of "
+          "out-of-extent accesses / UB on the shape grids of C03-C05, C07-C09, C17, C19 re-run on exact-size buffers with redzones + PROT_NONE "
+          "guard pages (O1), under AddressSanitizer+UBSan with exact heap blocks, and under ASan over the stand-in OpenMP runtime."),
+    technique="Lean 4 proofs of allocation balance and in-bounds accesses on the heap model translated from the source (derived safety predicates) + invariant proof over a hand-written allocator-trace model tied by recording the real allocator calls; sanitizer/guard-page campaigns as observation only",
     design="§4 C18", note=NOTE_BASE + " Uninitialised reads, alignment, integer/shift UB inside the C++ and stack VLAs are outside every model (observed by UBSan/ASan only; no MSan).")
 
 CHECKS["C12"] = dict(
